@@ -207,11 +207,8 @@ def emit_logics(chk, g, facts, rules, pid='C03'):
 _SEARCH_CACHE = {}
 
 
-def search_failing(logic, rule):
-    "Failing-input search for an inexact rule: arguments built around the rule's principal shape; real verdict vs brute-force oracle of the implementation's own evaluator."
-    key = (logic, rule['name'])
-    if key in _SEARCH_CACHE:
-        return _SEARCH_CACHE[key]
+def candidate_args(rule):
+    "Small arguments built around a rule's principal shape (premises, conclusion as JSON sentences)."
     A, B, Cc = ['A', 0], ['A', 1], ['A', 2]
     o = rule['operator']
     phi = ['U', o, A] if o in TF_OPS_U else ['B', o, A, B]
@@ -220,7 +217,7 @@ def search_failing(logic, rule):
     lits = [A, B, ['U', 'Negation', A], ['U', 'Negation', B]]
     subs = [(a_, b_) for a_ in (A, ['U', 'Negation', A], ['B', 'Conjunction', A, ['U', 'Negation', A]], ['U', 'Negation', ['U', 'Negation', A]])
             for b_ in (B, ['U', 'Negation', B])]
-    jobs = []
+    out = []
     for a_, b_ in subs:
         ph = json.loads(json.dumps(phi).replace(json.dumps(A), '"@A"').replace(json.dumps(B), '"@B"')
                         .replace('"@A"', json.dumps(a_)).replace('"@B"', json.dumps(b_)))
@@ -228,10 +225,19 @@ def search_failing(logic, rule):
         for extra in ([], [lits[0]], [lits[1]], [lits[2]], [lits[3]], [lits[2], lits[3]], [lits[0], lits[3]]):
             for other in lits + [Cc, ['B', 'Disjunction', A, B], ['B', 'Disjunction', lits[2], lits[3]]]:
                 if des:
-                    jobs.append(dict(logic=logic, premises=[ph] + extra, conclusion=other))
+                    out.append(([ph] + extra, other))
                 else:
-                    jobs.append(dict(logic=logic, premises=extra + [other], conclusion=ph))
-                    jobs.append(dict(logic=logic, premises=extra, conclusion=['B', 'Disjunction', ph, other]))
+                    out.append((extra + [other], ph))
+                    out.append((extra, ['B', 'Disjunction', ph, other]))
+    return out
+
+
+def search_failing(logic, rule):
+    "Failing-input search for an inexact rule: arguments built around the rule's principal shape; real verdict vs brute-force oracle of the implementation's own evaluator."
+    key = (logic, rule['name'])
+    if key in _SEARCH_CACHE:
+        return _SEARCH_CACHE[key]
+    jobs = [dict(logic=logic, premises=p_, conclusion=c_) for p_, c_ in candidate_args(rule)]
     for i, j in enumerate(jobs):
         j['id'] = i
     res = probe_json('probe_oracle.py', stdin=json.dumps(dict(jobs=jobs)), timeout=900)['results']
